@@ -32,8 +32,14 @@ def model_pairs(how, lkeys, rkeys):
 	"""list of (left index | None, right index | None) in the documented order"""
 	out = []
 	matched = set()
+	index = None
+	if len(rkeys) > 64 and _plain(rkeys) and _plain(lkeys):
+		# (large, plainly hashable keys: the same nested-loop pairs, found through a dict)
+		index = {}
+		for j, rk in enumerate(rkeys):
+			index.setdefault(rk, []).append(j)
 	for i, lk in enumerate(lkeys):
-		ms = [j for j, rk in enumerate(rkeys) if key_eq(lk, rk)]
+		ms = index.get(lk, []) if index is not None else [j for j, rk in enumerate(rkeys) if key_eq(lk, rk)]
 		if ms:
 			for j in ms:
 				out.append((i, j))
@@ -47,7 +53,14 @@ def model_pairs(how, lkeys, rkeys):
 	return out
 
 
+def _plain(keys):
+	"""every cell of every key is an int or a str (exact types): == and hash agree, a set decides"""
+	return all(type(x) in (int, str) for k in keys for x in k)
+
+
 def unique_keys(keys):
+	if len(keys) > 64 and _plain(keys):
+		return len(set(keys)) == len(keys)
 	for i in range(len(keys)):
 		for j in range(i + 1, len(keys)):
 			if key_eq(keys[i], keys[j]):
